@@ -43,6 +43,16 @@ def impedance(rng, nmax, passive=True):
             z.append((f32(re), f32(rng.uniform(-1, 1))))
         else:
             z.append((0.0, 0.0))
+    # a short impedance table (file with fewer rows than half the frequency grid, a model that ends below the top
+    # frequency): exact zeros from some index below the Nyquist index on, sometimes with a gap further down
+    shape = rng.random()
+    if shape < 0.25 and nmax >= 8:
+        k0 = rng.randint(1, max(1, nmax // 2 - 1))
+        z = [(zz if i < k0 else (0.0, 0.0)) for i, zz in enumerate(z)]
+    elif shape < 0.35 and nmax >= 12:
+        a = rng.randint(1, nmax // 4)
+        b = rng.randint(a + 1, nmax // 2)
+        z = [((0.0, 0.0) if a <= i < b else zz) for i, zz in enumerate(z)]
     return z
 
 
